@@ -253,7 +253,7 @@ void dtree_wlearner_t::do_predict(const dataset_t& dataset, indices_cmap_t sampl
 
 cluster_t dtree_wlearner_t::do_split(const dataset_t& dataset, const indices_t& samples) const
 {
-    cluster_t cluster(dataset.samples(), m_tables.size());
+    cluster_t cluster(dataset.samples(), m_tables.size<0>());
 
     std::deque<std::pair<size_t, indices_t>> splits;
     splits.emplace_back(0U, samples);
